@@ -344,9 +344,11 @@ ASSUME \A p \in DOMAIN PointSets : IndexMirrorSymmetric(PointSets[p]) <=> Rank(P
 ASSUME Rank(PointSets[1]) = 0 /\ Rank(PointSets[2]) = 0 /\ Rank(PointSets[4]) = 1 /\ Rank(PointSets[8]) = 2 /\ Rank(PointSets[10]) = 3
 ASSUME HomologPath(<<"ALA", "ALA", "SER">>, <<"GLY", "GLY", "GLY">>, 3) = "fallback" /\ HomologPath(<<"ALA", "ALA", "SER">>, <<"GLY", "GLY">>, 1) = "Rejected"
        /\ HomologPath(<<"ALA", "GLY", "SER">>, <<"ALA", "GLY", "SER">>, 3) = "identity" /\ HomologPath(<<"ALA", "ALA", "ALA">>, <<"SER", "GLY", "GLY">>, 1) = "open"
-\* the quaternion rotation: D R(q) is D times a proper rotation.  Polynomial identities of degree <= 6
-\* in each of a, b, c, d: equality on a grid of 7 values per variable proves them for all integers
-ASSUME \A q \in (-3..3) \X (-3..3) \X (-3..3) \X (-3..3) :
+\* the quaternion rotation: D R(q) is D times a proper rotation.  The entries of (D R)^T (D R) - D^2 I and of
+\* InverseLaw are polynomials of degree <= 4 in each of a, b, c, d: equality on a grid of 5 values per variable
+\* proves them for all integers.  det = +D^3 then follows (det is +-D^3, continuous in q # 0, +1 at the identity);
+\* it is pinned on the same grid.  (ASSUMEs are evaluated without caching: a larger grid costs 30 s.)
+ASSUME \A q \in (-2..2) \X (-2..2) \X (-2..2) \X (-2..2) :
           /\ MatMul(Transpose(QRotScaled(q)), QRotScaled(q)) = MatScale(QD(q) * QD(q), Id3)
           /\ Det(QRotScaled(q)) = QD(q) * QD(q) * QD(q)
           /\ InverseLaw(q)
